@@ -1,7 +1,9 @@
 ---------------------------- MODULE Trace_Classes ----------------------------
 (* Validation of executions recorded from the real jsonargparse (code -> spec) for property C14.                      *)
 (* TRACE_FILE holds [fams |-> <<family, ...>>, cases |-> <<[f, T, items, obs, pair], ...>>]:                            *)
-(*   (dflt, chan: the default of the argument and the channel of the first source, see Classes.tla)                   *)
+(*   (dflt, chan: the default of the argument and the channel of the first source, see Classes.tla; host: "top" | "sub", *)
+(*   whether the argument lives in the parsed parser or in the parser of a sub-command -- the spec does not look at it;   *)
+(*   vis: the late units (modules / packages of the family's layout) that were imported when the parse started)           *)
 (*   f      index of the class family (the harness generated a module with exactly these classes, whose constructors  *)
 (*          log their keyword arguments), T the class the argument --x is typed with, items the sources as in         *)
 (*          Classes.tla -- exactly what the harness concretised (argv / --cfg text) and executed;                     *)
@@ -13,6 +15,7 @@
 (*   "ref"            the parse outcome is not what the property says          (verdict)                              *)
 (*   "ref-dev-stale" / "ref-dev-nokw" / "ref-dev-both"   ... but exactly what the named dict_kwargs deviation gives   *)
 (*   "ref-dev-envreq" ... rejected exactly where the named environment-variable deviation rejects                    *)
+(*   "ref-dev-emptydict" / "ref-dev-listlen" / "ref-dev-nonetext"  ... rejected exactly where that named deviation does  *)
 (*   "ref-log"        the constructor log does not rebuild the normal form     (verdict)                              *)
 (*   "ref-inst-raise" instantiate_classes raised on an accepted spec           (verdict; "-nokw": the named deviation)*)
 (*   "ref-pair"       short form and explicit form do not denote the same configuration (verdict)                     *)
@@ -26,8 +29,8 @@ Cases == Data.cases
 N == Len(Cases)
 
 VARIABLE tid
-TraceFamOf(c) == Data.fams[c.f]    \* FamOf <- TraceFamOf in the cfg: the family is not part of the state
-Init == \E t \in 1..N : tid = t /\ InitCase([f |-> Cases[t].f, T |-> Cases[t].T, items |-> Cases[t].items, dflt |-> Cases[t].dflt, chan |-> Cases[t].chan])
+TraceFamOf(c) == [Data.fams[c.f] EXCEPT !.vis = c.vis]    \* FamOf <- TraceFamOf in the cfg: the family is not part of the state
+Init == \E t \in 1..N : tid = t /\ InitCase([f |-> Cases[t].f, T |-> Cases[t].T, items |-> Cases[t].items, dflt |-> Cases[t].dflt, chan |-> Cases[t].chan, host |-> Cases[t].host, vis |-> Cases[t].vis])
 TNext == Next /\ UNCHANGED tid
 
 Say(idx, clause) == PrintT(<<"R", idx, clause>>)
@@ -49,7 +52,9 @@ Check == Done =>
                                    ELSE IF Allowed([stale |-> FALSE, nokw |-> TRUE]) THEN "ref-dev-nokw"
                                    ELSE IF Allowed(CodeDev) THEN "ref-dev-both"
                                    ELSE IF EnvReqDeviation /\ ~o.ok THEN "ref-dev-envreq"
-                                   ELSE IF EmptyDictDeviation /\ ~o.ok THEN "ref-dev-emptydict" ELSE "ref")
+                                   ELSE IF EmptyDictDeviation /\ ~o.ok THEN "ref-dev-emptydict"
+                                   ELSE IF ListLenDeviation /\ ~o.ok THEN "ref-dev-listlen"
+                                   ELSE IF NoneTextDeviation /\ ~o.ok THEN "ref-dev-nonetext" ELSE "ref")
      /\ (p = AlgParsed) \/ Say(tid, "alg")
      /\ (o.ok /\ o.inst = "ok") => (LogOK(FamOf(cs), o.v, o.log, o.root, o.rtype) \/ Say(tid, "ref-log"))
      /\ (o.ok /\ o.inst = "raise") => Say(tid, IF Unchecked(FamOf(cs), o.v) THEN "ref-inst-raise-nokw" ELSE "ref-inst-raise")
